@@ -120,7 +120,7 @@ func TestVerifC02_NamespaceData(t *testing.T) {
 				fams = append(fams, "dropshare-reproved", "dropshare-reproved", "dropshare", "truncate-last", "extrashare",
 					"inclusion->absence", "inclusion->absence")
 			} else {
-				fams = append(fams, "absence->inclusion", "absence->inclusion")
+				fams = append(fams, "absence->inclusion", "absence->inclusion", "absence+shares", "absence+shares")
 			}
 		}
 		family := rapid.SampledFrom(fams).Draw(t, "family")
@@ -257,6 +257,15 @@ func TestVerifC02_NamespaceData(t *testing.T) {
 			if err != nil {
 				ok = false
 				break
+			}
+			resp[i] = e
+		case "absence+shares":
+			// an honest absence entry with shares attached (a responder pads an absent namespace)
+			i := rapid.IntRange(0, len(resp)-1).Draw(t, "rowi")
+			n := rapid.IntRange(1, 3).Draw(t, "nattach")
+			e := resp[i]
+			for x := 0; x < n; x++ {
+				e.Shares = append(e.Shares, sq.Shares[rapid.IntRange(0, sq.ODS*sq.ODS-1).Draw(t, "attach")])
 			}
 			resp[i] = e
 		case "otherns-entry":
